@@ -50,3 +50,13 @@ Example c05_nonvacuous :
   plus64 3 (mkF 2024 2 28 0 0 0) 2 = OK (mkF 2024 3 1 0 0 0) /\
   difference64 0 (mkF max64 12 31 23 59 59) (mkF (max64 - 200) 1 1 0 0 0) = OK 6342883199.
 Proof. vm_compute. split; reflexivity. Qed.
+
+(* ---- tie to the CURRENT source: the functions below are translated from clang's AST
+   of /repo on every run (coq/Translated.v); the model computes exactly them ---- *)
+From CCTZ Require Import Translated TranslatedProofs.
+Theorem src_tie_scale_add : forall v f a r, scale_add64 v f a = OK r -> r = tr_scale_add v f a.
+Proof. exact tr_scale_add_eq. Qed.
+Print Assumptions src_tie_scale_add.
+Theorem src_tie_ymd_ord : forall y m d r, ymd_ord64 y m d = OK r -> r = tr_ymd_ord y m d.
+Proof. exact tr_ymd_ord_eq. Qed.
+Print Assumptions src_tie_ymd_ord.
